@@ -1,6 +1,6 @@
 ---------------------------- MODULE HTableTrace ---------------------------
 (* Trace validation for the hash tables (see ArrayTrace.tla for the scheme).*)
-(* Events: create [kind,nkeys]; insert [k,v]; get/get_direct/remove/claim   *)
+(* Events: create [kind,nkeys,prefill,embedding]; insert [k,v]; get/get_direct/remove/claim   *)
 (* [k]; num_keys; destroy.  The enumeration order of keys() and the order   *)
 (* in which destroy frees the entries are unspecified: they are compared as *)
 (* sorted sequences.                                                        *)
